@@ -798,3 +798,89 @@ func calledFromAny(fn *ssa.Function, set map[*ssa.Function]bool) bool {
 	}
 	return found
 }
+
+// expansionFamily: the methods of *Config that call os.Expand, and the
+// methods that delegate to them from inside the family.
+func expansionFamily(c *Ctx) []*ssa.Function {
+	cfgPtr := types.NewPointer(c.NamedType("", "Config"))
+	var expFns []*ssa.Function
+	for _, fn := range c.ModFuncs {
+		uses := false
+		forEachInstr(fn, func(in ssa.Instruction) {
+			if call, ok := in.(*ssa.Call); ok && calleeIs(call, "os", "", "Expand") {
+				uses = true
+			}
+		})
+		if uses && fn.Signature.Recv() != nil && types.Identical(fn.Signature.Recv().Type(), cfgPtr) {
+			expFns = append(expFns, fn)
+		}
+	}
+	for grew := true; grew; {
+		grew = false
+		in := map[*ssa.Function]bool{}
+		for _, f := range expFns {
+			in[f] = true
+		}
+		for _, fn := range c.ModFuncs {
+			if in[fn] || fn.Signature.Recv() == nil || !types.Identical(fn.Signature.Recv().Type(), cfgPtr) {
+				continue
+			}
+			calls := false
+			forEachInstr(fn, func(i2 ssa.Instruction) {
+				if call, ok := i2.(ssa.CallInstruction); ok {
+					if sc := call.Common().StaticCallee(); sc != nil && in[sc] {
+						calls = true
+					}
+				}
+			})
+			if calls && calledFromAny(fn, in) {
+				expFns = append(expFns, fn)
+				grew = true
+			}
+		}
+	}
+	return expFns
+}
+
+// expansionStorePaths: Go field paths (below Config, e.g.
+// "Info.Overridables.Scripts.PreInstall") the expansion family assigns.
+func expansionStorePaths(c *Ctx) map[string]ssa.Instruction {
+	cfgPtr := types.NewPointer(c.NamedType("", "Config"))
+	pa := newProv(c)
+	out := map[string]ssa.Instruction{}
+	for _, fn := range expansionFamily(c) {
+		forEachInstr(fn, func(in ssa.Instruction) {
+			st, ok := in.(*ssa.Store)
+			if !ok {
+				return
+			}
+			p, root := addrPath(st.Addr)
+			if root == nil || p == "" {
+				return
+			}
+			if types.Identical(root.Type(), cfgPtr) {
+				out[p] = st
+				return
+			}
+			prm, isPrm := root.(*ssa.Parameter)
+			if !isPrm {
+				return
+			}
+			idx := -1
+			for i, q := range fn.Params {
+				if q == prm {
+					idx = i
+				}
+			}
+			for _, cs := range pa.callSites(fn) {
+				if idx < 0 || idx >= len(cs.Common().Args) {
+					continue
+				}
+				if pre, r2 := addrPath(cs.Common().Args[idx]); r2 != nil && pre != "" && types.Identical(r2.Type(), cfgPtr) {
+					out[pre+"."+p] = st
+				}
+			}
+		})
+	}
+	return out
+}
